@@ -155,6 +155,10 @@ func handleSubStr(params internal.HandlerFuncParams) ([]byte, error) {
 	if end > len(value) {
 		end = len(value)
 	}
+	if start > len(value) {
+		// A start beyond the end of the string selects nothing.
+		start = len(value)
+	}
 
 	if start > end {
 		reversed = true
